@@ -35,6 +35,7 @@ type iterInfo struct {
 	cell  string // ref of the position cell
 	isMap bool
 	m     *Val
+	dom0  string // map iteration: the key set of the map when the iteration started
 }
 
 type pathElem struct {
@@ -478,6 +479,15 @@ func tagProp(tag string) string {
 	if k := strings.Index(tag, ":"); k >= 0 {
 		tag = tag[:k]
 	}
+	// "C15+C09": the clause belongs to both properties (a postcondition stated for C15 that callers' C09 obligations rely on)
+	if strings.Contains(tag, "+") {
+		for _, part := range strings.Split(tag, "+") {
+			if tagProp(part) == "" {
+				return ""
+			}
+		}
+		return tag
+	}
 	if len(tag) >= 3 && tag[0] == 'C' {
 		for _, c := range tag[1:] {
 			if c < '0' || c > '9' {
@@ -487,6 +497,16 @@ func tagProp(tag string) string {
 		return tag
 	}
 	return ""
+}
+
+// propMatch: does a clause label's property part ("C15" or "C15+C09") name property p?
+func propMatch(only, p string) bool {
+	for _, part := range strings.Split(only, "+") {
+		if part == p {
+			return true
+		}
+	}
+	return false
 }
 
 // check = obligation, then assume it for the continuation (standard assert-then-assume)
@@ -1258,9 +1278,13 @@ func (x *vc) modsOfBlock(fr *frame, st *state, b *ssa.BasicBlock, li *loopInfo, 
 		case *ssa.MapUpdate:
 			mt := in.Map.Type().Underlying().(*types.Map)
 			d, v, l := x.mapArrs(st, mt)
-			mod.add(d, "*")
-			mod.add(v, "*")
-			mod.add(l, "*")
+			ref := "*"
+			if mv, ok := x.addrRootOutside(fr, in.Map, li); ok && mv.T != "" {
+				ref = mv.T // the one map object written (a value defined before the loop)
+			}
+			mod.add(d, ref)
+			mod.add(v, ref)
+			mod.add(l, ref)
 		case *ssa.Next:
 			if in.IsString {
 				name, _ := x.cellArr(st, types.Typ[types.Int])
@@ -1274,6 +1298,15 @@ func (x *vc) modsOfBlock(fr *frame, st *state, b *ssa.BasicBlock, li *loopInfo, 
 					}
 				}
 				mod.add(name, "*")
+			} else if rng, ok := in.Iter.(*ssa.Range); ok {
+				// map iteration: the ghost set of visited keys of this iterator
+				if mt, isMap := rng.X.Type().Underlying().(*types.Map); isMap {
+					mod.add(x.visitedArr(st, mt), "*")
+				}
+			}
+		case *ssa.Range:
+			if mt, isMap := in.X.Type().Underlying().(*types.Map); isMap {
+				mod.add(x.visitedArr(st, mt), "*")
 			}
 		case *ssa.Alloc:
 			// re-executed allocations are fresh objects; their fields are initialised at the Alloc
